@@ -323,6 +323,10 @@ def gen_cases(profile, seed, count, model_profile="release"):
                            input=pre + req + "\n", capture_output=True, text=True)
         if r.returncode != 0:
             raise Broken("driver failed on " + req + ": " + r.stderr[-500:])
+        bad = [l for l in r.stdout.split("\n") if l.startswith("SEMCHECK ") and not l.endswith(" same")]
+        if bad:
+            raise Broken("the two sides of theorem decode_encode disagree on a generated program (generator emits a "
+                         "program outside ProgramWF, or the driver is wrong): " + bad[0])
         return parse_cases(r.stdout)
     files = []
     obs = {}
